@@ -541,7 +541,7 @@ func cmdCheck(args []string) int {
 		assum = append(assum, "assumed contract / built-in model of external function: "+a)
 	}
 	assum = append(assum,
-		"x/tools go/ssa builder is faithful to the Go spec; gvc's VC generator is correct (exercised by the must-fail corpus in /verif/selftest)",
+		"x/tools go/ssa builder is faithful to the Go spec; gvc's VC generator is correct (exercised by the must-fail corpus /verif/seeded (tools/seed_detect.sh) and ad-hoc mutations (tools/mut.sh))",
 		"termination is not proved (partial correctness)",
 		"no Go object has more than 2^56 elements",
 		"clients reach a container's representation only through its exported API (encapsulation)")
